@@ -5,6 +5,7 @@ mod codec;
 mod cssops;
 mod dump;
 mod ops;
+mod scopedump;
 
 use std::io::{BufRead, Write};
 
